@@ -253,6 +253,9 @@ func (r *Run) Finish() int {
 	}
 	cov["samples"] = r.samples
 	cov["exhaustive"] = r.Exhaustive
+	if r.caps == nil {
+		r.caps = []string{}
+	}
 	cov["caps_hit"] = r.caps
 	cov["known_findings_seen"] = seen
 	cov["violation_classes"] = len(r.classes)
